@@ -711,6 +711,12 @@ func (p *pp) printArg(arg interface{}, verb rune) {
 		defer p.startSafeOverride().restore()
 	}
 
+	// CUSTOM: %w with an operand that is not an error is invalid,
+	// whatever the operand's type.
+	if _, ok := arg.(error); !ok {
+		p.invalidWrap(verb)
+	}
+
 	p.arg = arg
 	p.value = reflect.Value{}
 
@@ -1077,12 +1083,14 @@ func (p *pp) argNumber(
 }
 
 func (p *pp) badArgNum(verb rune) {
+	p.invalidWrap(verb)
 	p.buf.writeString(percentBangString)
 	p.buf.writeRune(verb)
 	p.buf.writeString(badIndexString)
 }
 
 func (p *pp) missingArg(verb rune) {
+	p.invalidWrap(verb)
 	p.buf.writeString(percentBangString)
 	p.buf.writeRune(verb)
 	p.buf.writeString(missingString)
